@@ -8,6 +8,7 @@ import Mutagen.Proofs.Lifecycle6
 import Mutagen.Proofs.Lifecycle7
 import Mutagen.Proofs.Lifecycle8
 import Mutagen.Proofs.Lifecycle9
+import Mutagen.Proofs.Lifecycle10
 /-!
 # C29 — session lifecycle commands take effect exactly as documented
 
@@ -286,5 +287,34 @@ theorem serving_a_flush_means_full_scans {w : Bool} {tr : List Label} {s : State
       x.fullA = true ∧ x.fullB = true ∧ x.okA = true ∧ x.okB = true) := by
   have i := invF_run r
   exact ⟨fun hpc => ((i.serving l t hl hr x hx hid).1 hpc).1, (i.serving l t hl hr x hx hid).2⟩
+
+/-- **A pause survives a manager restart.** In every run, when a manager
+restart (Shutdown + NewManager) returns with the `Paused` flag on disk, the
+session is registered with the new manager, its controller is enabled, holds no
+lock and runs no loop: the session is still paused (and by
+`paused_session_is_silent` nothing happens at its endpoints until a resume),
+and a later `resume` will find it. -/
+theorem pause_survives_restart {w : Bool} {tr : List Label} {s s' : State} {t : Nat}
+    (r : Run (init w) tr s) (st : Step s (.ret t .restart .ok) s') (hp : s.sess = some true) :
+    s'.sess = some true ∧ s'.entry = true ∧ s'.disabled = false ∧ s'.running = false ∧
+    s'.loop = none ∧ s'.crit = none := by
+  obtain ⟨⟨th, hth, _, h2, h3⟩, hs'⟩ := ret_source st
+  obtain ⟨_, hpi⟩ := invRs_run r th hth h2 h3
+  obtain ⟨h1, h2', h3', h4, h5⟩ := hpi hp
+  subst hs'
+  exact ⟨hp, h1, h2', h3', h4, h5⟩
+
+/-! Non-vacuity: a run in which a `pause` returns successfully (a session is
+created paused and paused again), with the `Paused` flag on disk. -/
+
+example : ∃ tr s s', Run (init false) tr s ∧ Step s (.ret 2 .pause .ok) s' ∧ s.sess = some true := by
+  have r0 : Run ex0 [] ex0 := Run.nil
+  have r1 := Run.snoc r0 (Step.call (t := 1) (op := .create true) (s' := ex1) (by decide))
+  have r2 := Run.snoc r1 (Step.internal (l := .tau) (s' := ex2) (by decide))
+  have r3 := Run.snoc r2 (Step.internal (l := .ret 1 (.create true) .ok) (s' := ex3) (by decide))
+  have r4 := Run.snoc r3 (Step.call (t := 2) (op := .pause) (s' := ex4) (by decide))
+  have r5 := Run.snoc r4 (Step.internal (l := .tau) (s' := ex5) (by decide))
+  have r6 := Run.snoc r5 (Step.internal (l := .tau) (s' := ex6) (by decide))
+  exact ⟨_, ex6, ex7, r6, Step.internal (by decide), by decide⟩
 
 end Mutagen.Properties.C29
